@@ -5,7 +5,7 @@
    The theorems say what every accepted event list satisfies. *)
 From Coq Require Import List Arith Bool.
 Import ListNotations.
-Require Import CoStream CoFacts CoTake.
+Require Import CoStream CoFacts CoTake CoOnce.
 
 (* within the limit: with limit l >= 1 on for_each / try_for_each, at no point are more than l pushed items incomplete *)
 Theorem C13_within_limit c l es s k : limited c l -> 1 <= l -> run c (init c) es k = (s, None) -> cnt (works s) <= l.
@@ -25,11 +25,17 @@ Proof. exact (C13_structured c s r s'). Qed.
 (* at most once: the log of closure invocations (stage, item) of an accepted run has no duplicates *)
 Theorem C13_at_most_once c es s k : run c (init c) es k = (s, None) -> NoDup (calls s).
 Proof. exact (C13_once c es s k). Qed.
+(* at least once: when a result is returned and no error was recorded, every item taken from the source has been passed to the terminal closure
+   (and to the map closure if there is one).  With C13_at_most_once: exactly once.  (The acceptor admits the drop of an unprocessed item or of
+   in-flight work only once an error is recorded or the operation itself is dropped - Model/CoStream.v, EDropWork / EDropItem.) *)
+Theorem C13_at_least_once_each c es s k r s' : run c (init c) es k = (s, None) -> step c s (EResult r) = Some s' -> residual s = None ->
+  forall j, j < taken s -> (has_term c = true -> In (1, j) (calls s)) /\ (has_map c = true -> In (0, j) (calls s)).
+Proof. exact (C13_at_least_once c es s k r s'). Qed.
 (* after the result or after the drop of the operation nothing runs any more: no source item, closure call, completion or second result *)
 Theorem C13_nothing_after_end c s e s' : step c s e = Some s' -> (ph s = PDone \/ ph s = PDropped) ->
   match e with EDone _ _ _ | ECall _ _ _ | ESrc _ | EResult _ => False | _ => True end.
 Proof. exact (C14_cancel c s e s'). Qed.
-Print Assumptions C13_within_limit. Print Assumptions C13_result_structured. Print Assumptions C13_at_most_once. Print Assumptions C13_nothing_after_end.
+Print Assumptions C13_within_limit. Print Assumptions C13_result_structured. Print Assumptions C13_at_most_once. Print Assumptions C13_at_least_once_each. Print Assumptions C13_nothing_after_end.
 
 (* non-vacuity: for_each with limit 1 over two items; the second item waits until the first closure future has completed *)
 Example C13_witness :
